@@ -125,6 +125,11 @@ impl Runtime {
             self.program.clear();
             self.program.codegen(self.listing.lines());
             self.dirty = false;
+            // return addresses, loop frames, function entry points and the
+            // continuation point refer to the code that was just replaced
+            self.stack.clear();
+            self.functions.clear();
+            self.cont = State::Stopped;
         }
         self.program.codegen(&line);
         let (pc, indirect_errors, direct_errors) = self.program.link();
